@@ -322,6 +322,10 @@ def run_case(case):
                     kinds += [(n_, a) for a in ("base_storage_need", "base_storage_need", "storage_capacity", "data_replication_factor", "data_storage_duration")]
                 elif o_["cls"] == "Server":
                     kinds += [(n_, a) for a in ("ram", "compute", "server_utilization_rate", "server_type", "server_type")]
+                elif o_["cls"] == "Job":
+                    kinds += [(n_, a) for a in ("ram_needed", "compute_needed")]      # the need rises under a count that may be fixed
+                elif o_["cls"] == "UsagePattern":
+                    kinds += [(n_, "hourly_usage_journey_starts")]
             if not kinds:
                 break
             n_, a_ = rnd.choice(kinds)
@@ -333,6 +337,12 @@ def run_case(case):
                 if new_[1] != "on-premise" and fx_ is not None and not isinstance(fx_, E.EmptyExplainableObject):
                     continue
                 classes.add(f"live_type_{old_[1]}_to_{new_[1]}")
+            elif a_ == "hourly_usage_journey_starts":
+                new_ = ["h", [x * 3 + 1 for x in old_[1]], old_[2], old_[3]]
+            elif a_ in ("ram_needed", "compute_needed"):
+                new_ = ["q", old_[1] * rnd.choice([3.0, 7.0]), old_[2]]
+            elif a_ in ("ram", "compute"):
+                new_ = ["q", old_[1] * rnd.choice([1.37, 2.0, 0.4, 0.4]), old_[2]]
             elif a_ == "base_storage_need":
                 new_ = ["q", rnd.choice([1.5, 6.0, 8.0, old_[1] + 3.0]), "TB"]
             elif a_ == "data_storage_duration":
